@@ -39,3 +39,13 @@ def report_known(prop):
             print(line)
             out.append(e['id'])
     return out
+
+
+_OPEN = None
+
+
+def open_ids():
+    global _OPEN
+    if _OPEN is None:
+        _OPEN = frozenset(e['id'] for e in open_findings())
+    return _OPEN
